@@ -94,22 +94,22 @@ type SessRec struct {
 }
 
 type World struct {
-	mu     sync.Mutex
-	Srv    engine.Server
-	Opts   *config.ServerOptions
-	Path   string
-	T0     time.Time
-	Log    []Ev
-	Sess   map[string]*SessRec
-	Order  []string // sids in connection order
-	tags   map[io.Reader]int
-	nextTag int
-	ConnErrs []*types.ErrorMessage
-	SrvEvents []Ev
-	fails  []string
-	Wts    *wt.Server
-	OnConn func(*SessRec) // extra hook at connection time (runs inside the listener)
-	InitialHeaders []string // sids (or "?") for which initial_headers fired
+	mu             sync.Mutex
+	Srv            engine.Server
+	Opts           *config.ServerOptions
+	Path           string
+	T0             time.Time
+	Log            []Ev
+	Sess           map[string]*SessRec
+	Order          []string // sids in connection order
+	tags           map[io.Reader]int
+	nextTag        int
+	ConnErrs       []*types.ErrorMessage
+	SrvEvents      []Ev
+	fails          []string
+	Wts            *wt.Server
+	OnConn         func(*SessRec) // extra hook at connection time (runs inside the listener)
+	InitialHeaders []string       // sids (or "?") for which initial_headers fired
 	HeadersEv      int
 	hdrHook        func(name string, h map[string][]string, req *types.HttpContext)
 }
@@ -358,12 +358,12 @@ type OpenInfo struct {
 }
 
 type ClientOpts struct {
-	Rev   int    // 3 or 4
-	EIO   string // raw EIO value; "" = derive from Rev
-	B64   bool
-	JSONP bool
-	J     string
-	Extra http.Header
+	Rev        int    // 3 or 4
+	EIO        string // raw EIO value; "" = derive from Rev
+	B64        bool
+	JSONP      bool
+	J          string
+	Extra      http.Header
 	ExtraQuery string
 }
 
@@ -378,18 +378,18 @@ func (o ClientOpts) eio() string {
 }
 
 type PollClient struct {
-	W     *World
-	O     ClientOpts
-	Sid   string
-	Open  *OpenInfo
-	Poll  *Exchange   // outstanding poll, nil if none
-	Polls []*Exchange // all polls issued
-	Posts []*Exchange
-	Recv  []Pkt // every packet received, in order
+	W      *World
+	O      ClientOpts
+	Sid    string
+	Open   *OpenInfo
+	Poll   *Exchange   // outstanding poll, nil if none
+	Polls  []*Exchange // all polls issued
+	Posts  []*Exchange
+	Recv   []Pkt // every packet received, in order
 	RecvAt []time.Duration
-	Msgs  []Pkt // message packets received
-	Errs  []string
-	HS    *Exchange
+	Msgs   []Pkt // message packets received
+	Errs   []string
+	HS     *Exchange
 	Closed bool // close packet seen
 }
 
